@@ -64,6 +64,41 @@ def _real_coords(name, args):
         except ValueError:
             return ["err"]
         return [None, C.frs(Fraction(float(reg[0]))), C.frs(Fraction(float(reg[1])))]
+    if name == "lonPoint":
+        import numpy as np
+        i360, lon = args[0] == "true", float(C.tofrac(args[1]))
+        # a region that selects the wanted convention: (0, 90) -> [0, 360); (350, 10) -> [-180, 180)
+        reg = (0, 90, 0, 1) if i360 else (350, 10, 0, 1)
+        if not (-180 <= lon <= 360):
+            return [None]
+        coords, _ = co.longitude_continuity([np.array([lon]), np.array([0.0])], reg)
+        return [C.frs(Fraction(float(coords[0][0])))]
+    if name == "checkRegion4":
+        try:
+            co.check_region([float(C.tofrac(t)) for t in args])
+            return ["ok"]
+        except ValueError:
+            return ["err"]
+    if name == "checkGeoRegion":
+        try:
+            co._check_geographic_region([float(C.tofrac(t)) for t in args])
+            return ["ok"]
+        except ValueError:
+            return ["err"]
+    if name == "geoCoordBad":
+        import numpy as np
+        try:
+            co._check_geographic_coordinates([np.array([float(C.tofrac(args[0]))]), np.array([float(C.tofrac(args[1]))])])
+            return ["ok"]
+        except ValueError:
+            return ["err"]
+    if name == "shapeToSpacing":
+        w, e, s, n = (float(C.tofrac(t)) for t in args[:4])
+        try:
+            sp = co.shape_to_spacing((w, e, s, n), (int(args[4]), int(args[5])), pixel_register=args[6] == "true")
+        except ZeroDivisionError:
+            return ["err"]
+        return [C.frs(Fraction(float(v))) for v in sp]
     raise KeyError(name)
 
 
@@ -77,7 +112,7 @@ def _differs(kind, a, b):
             if not _same_float(_f(x), y if isinstance(y, float) else _f(y)):
                 return True
         else:
-            if x in ("true", "false", "err") or y in ("true", "false", "err"):
+            if x in ("true", "false", "err", "ok") or y in ("true", "false", "err", "ok"):
                 if x != y:
                     return True
             elif C.tofrac(x) != C.tofrac(y):
